@@ -69,15 +69,23 @@ Theorem crash_iteration req : forall fuel rs st s rest k,
   exists j tail ended st' s',
     run (it_pull fuel req st) (truncate k s)
     = (Ok (map (fun nr => Ok (denote (snd nr))) (firstn j rs) ++ tail, ended, st'), s') /\
-    (tail = [] \/ tail = [Err EIoEof]).
+    (tail = [] \/ tail = [Err EIoEof]) /\
+    (* at least the records that lie wholly inside both the retained bytes and the declared length *)
+    (forall n, (n <= fuel)%nat -> (n <= length rs)%nat ->
+       s_pos s + zlen (ref_records_bytes (firstn n rs)) <= k ->
+       s_pos s + zlen (ref_records_bytes (firstn n rs)) <= flen_bytes st -> (n <= j)%nat).
 Proof.
   induction fuel as [|fuel IH]; intros rs st s rest k Hidx Hcl Hcur Hok Hr Hk Hbig.
-  - exists 0%nat, [], false, st, (truncate k s). split; [reflexivity|left; reflexivity].
+  - exists 0%nat, [], false, st, (truncate k s). split; [reflexivity|]. split; [left; reflexivity|]. intros n Hn _ _ _. exact Hn.
   - rewrite it_pull_unfold, run_bind.
     destruct (Z.leb_spec (flen_bytes st) (r_cur st)) as [Hge|Hlt].
     + (* the declared length is reached *)
       unfold it_next. rewrite Hidx. destruct (Z.leb_spec (flen_bytes st) (r_cur st)); [|lia].
-      cbn [run fst snd]. exists 0%nat, [], true, st, (truncate k s). split; [reflexivity|left; reflexivity].
+      cbn [run fst snd]. exists 0%nat, [], true, st, (truncate k s). split; [reflexivity|]. split; [left; reflexivity|].
+      intros n _ Hn _ Hfl. destruct n as [|n]; [apply Nat.le_refl|exfalso].
+      destruct rs as [|[num r] rs']; [cbn in Hn; lia|].
+      cbn [firstn] in Hfl. unfold ref_records_bytes in Hfl. cbn [flat_map fst snd] in Hfl. rewrite zlen_app, zlen_ref_record in Hfl.
+      pose proof (zlen_nonneg (ref_content r)). pose proof (zlen_nonneg (flat_map (fun nr => ref_record (fst nr) (snd nr)) (firstn n rs'))). lia.
     + set (st1 := set_cur st (flen_bytes st)).
       assert (Hafter : forall s2, run (it_pull fuel req st1) s2 = (Ok ([], match fuel with O => false | S _ => true end, st1), s2)).
       { intros s2. apply it_pull_after_error; [exact Hidx|]. unfold st1; cbn [set_cur r_cur]. change (flen_bytes (set_cur st (flen_bytes st))) with (flen_bytes st). lia. }
@@ -88,7 +96,8 @@ Proof.
         { rewrite rest_truncate by (destruct Hcl; lia). replace (k - s_pos s) with 0 by lia. reflexivity. }
         destruct (read_at_end req (truncate k s) (truncate_clean k s Hcl) Hre) as (s2 & Hrun).
         rewrite (it_next_error req st (truncate k s) EIoEof s2 Hidx Hlt Hrun). cbn [fst snd]. rewrite run_bind, Hafter. cbn [run fst snd].
-        exists 0%nat, [Err EIoEof]. eexists. exists st1, s2. split; [reflexivity|right; reflexivity].
+        exists 0%nat, [Err EIoEof]. eexists. exists st1, s2. split; [reflexivity|]. split; [right; reflexivity|].
+        intros n _ Hn _ _. cbn in Hn. exact Hn.
       * inversion Hok as [|? ? Hok1 Hok2]; subst. pose proof Hok1 as (Hnum & Hc & Hsz & Ha). cbn [fst snd] in *.
         unfold ref_records_bytes in Hr, Hk. cbn [flat_map fst snd] in Hr, Hk. fold (ref_records_bytes rs') in Hr, Hk.
         rewrite zlen_app in Hk. rewrite <- app_assoc in Hr.
@@ -108,26 +117,40 @@ Proof.
            rewrite (it_next_ok_at req st (truncate k s) _ _ _ Hidx Hlt Hrun G1 G2 G3). cbn [fst snd]. rewrite run_bind.
            set (st2 := set_cur st (r_cur st + 8 + zlen (ref_content r) / 2 * 2)).
            assert (Hr1 : s_rest s1 = ref_records_bytes rs' ++ rest) by (eapply rest_after; eauto; apply Hcl).
-           destruct (IH rs' st2 s1 rest k) as (j & tail & ended & st3 & s3 & Hrun3 & Htail); try assumption.
+           destruct (IH rs' st2 s1 rest k) as (j & tail & ended & st3 & s3 & Hrun3 & Htail & Hlb); try assumption.
            ++ unfold st2; cbn [set_cur r_cur]. lia.
            ++ lia.
            ++ rewrite Hd1. exact Hbig.
-           ++ rewrite Hrun3. cbn [run fst snd]. exists (S j), tail, ended, st3, s3. split; [reflexivity|exact Htail].
+           ++ rewrite Hrun3. cbn [run fst snd]. exists (S j), tail, ended, st3, s3. split; [reflexivity|]. split; [exact Htail|].
+              intros n Hnf Hn Hins Hfl. destruct n as [|n]; [lia|]. apply le_n_S. apply Hlb.
+              ** lia.
+              ** cbn [length] in Hn. lia.
+              ** cbn [firstn] in Hins. unfold ref_records_bytes in Hins. cbn [flat_map fst snd] in Hins. rewrite zlen_app in Hins.
+                 fold (ref_records_bytes (firstn n rs')) in Hins. lia.
+              ** cbn [firstn] in Hfl. unfold ref_records_bytes in Hfl. cbn [flat_map fst snd] in Hfl. rewrite zlen_app in Hfl.
+                 fold (ref_records_bytes (firstn n rs')) in Hfl. change (flen_bytes st2) with (flen_bytes st). lia.
         -- destruct (L2_truncated_record req num r s (ref_records_bytes rs' ++ rest) k Hnum Hc Hsz Ha Hcl Hr ltac:(lia)) as (s2 & Hrun).
            rewrite (it_next_error req st (truncate k s) EIoEof s2 Hidx Hlt Hrun). cbn [fst snd]. rewrite run_bind, Hafter. cbn [run fst snd].
-           exists 0%nat, [Err EIoEof]. eexists. exists st1, s2. split; [reflexivity|right; reflexivity].
+           exists 0%nat, [Err EIoEof]. eexists. exists st1, s2. split; [reflexivity|]. split; [right; reflexivity|].
+           intros n _ Hn Hins _. destruct n as [|n]; [apply Nat.le_refl|exfalso].
+           cbn [firstn] in Hins. unfold ref_records_bytes in Hins. cbn [flat_map fst snd] in Hins. rewrite zlen_app in Hins.
+           pose proof (zlen_nonneg (flat_map (fun nr => ref_record (fst nr) (snd nr)) (firstn n rs'))). lia.
 Qed.
 
 (** ** The file level: any 100 bytes, then a byte-prefix of the records *)
-Theorem crash_read_noindex req (H' : bytes) rs m fuel :
+Theorem crash_read_noindex_lb req (H' : bytes) rs m fuel :
   length H' = 100%nat -> Forall (record_ok req) rs -> 0 <= m <= zlen (ref_records_bytes rs) ->
   zlen (ref_records_bytes rs) < two31 * 4 ->
   let data := H' ++ firstn (Z.to_nat m) (ref_records_bytes rs) in
-  (exists e s', run r_new (src_of data) = (Err e, s')) \/
-  (exists j tail ended st' s',
+  (exists e s', run read_header (src_of data) = (Err e, s') /\ run r_new (src_of data) = (Err e, s')) \/
+  (exists h s1 j tail ended st' s',
+     run read_header (src_of data) = (Ok h, s1) /\
      run (st <-- r_new ;; it_pull fuel req st) (src_of data)
      = (Ok (map (fun nr => Ok (denote (snd nr))) (firstn j rs) ++ tail, ended, st'), s') /\
-     (tail = [] \/ tail = [Err EIoEof])).
+     (tail = [] \/ tail = [Err EIoEof]) /\
+     (forall n, (n <= fuel)%nat -> (n <= length rs)%nat ->
+        zlen (ref_records_bytes (firstn n rs)) <= m ->
+        100 + zlen (ref_records_bytes (firstn n rs)) <= Z.max 0 (h_len h) * 2 -> (n <= j)%nat)).
 Proof.
   intros HH Hok Hm Hsmall data. set (R := ref_records_bytes rs) in *.
   unfold r_new. destruct (run read_header (src_of data)) as [[h|e|] s1] eqn:Eh.
@@ -146,12 +169,29 @@ Proof.
     { rewrite s_rest_skipn. unfold sf. cbn [s_pos s_data]. change (Z.to_nat 100) with 100%nat.
       rewrite skipn_app, skipn_all2, HH, Nat.sub_diag by lia. rewrite app_nil_r. reflexivity. }
     set (st0 := mkr h None 100 0).
-    destruct (crash_iteration req fuel rs st0 sf [] (100 + m)) as (j & tail & ended & st' & s' & Hrun & Htail); try assumption; try reflexivity.
+    destruct (crash_iteration req fuel rs st0 sf [] (100 + m)) as (j & tail & ended & st' & s' & Hrun & Htail & Hlb); try assumption; try reflexivity.
     + cbn [s_pos sf]. fold R. lia.
     + unfold sf. cbn [s_data]. rewrite zlen_app. unfold zlen at 1. rewrite HH. fold R. unfold two31, two63 in *. lia.
-    + rewrite Hs1. exists j, tail, ended, st', s'. split; [exact Hrun|exact Htail].
-  - left. exists e, s1. rewrite run_bind, Eh. reflexivity.
+    + rewrite Hs1. exists h, (truncate (100 + m) sf), j, tail, ended, st', s'. split; [rewrite <- Hs1; reflexivity|]. split; [exact Hrun|]. split; [exact Htail|].
+      intros n Hnf Hn Hin Hfl. apply Hlb; try assumption; change (s_pos sf) with 100; lia.
+  - left. exists e, s1. split; [reflexivity|]. rewrite run_bind, Eh. reflexivity.
   - exfalso. pose proof (np_run _ np_read_header (src_of data)) as N. rewrite Eh in N. apply N. reflexivity.
+Qed.
+
+Theorem crash_read_noindex req (H' : bytes) rs m fuel :
+  length H' = 100%nat -> Forall (record_ok req) rs -> 0 <= m <= zlen (ref_records_bytes rs) ->
+  zlen (ref_records_bytes rs) < two31 * 4 ->
+  let data := H' ++ firstn (Z.to_nat m) (ref_records_bytes rs) in
+  (exists e s', run r_new (src_of data) = (Err e, s')) \/
+  (exists j tail ended st' s',
+     run (st <-- r_new ;; it_pull fuel req st) (src_of data)
+     = (Ok (map (fun nr => Ok (denote (snd nr))) (firstn j rs) ++ tail, ended, st'), s') /\
+     (tail = [] \/ tail = [Err EIoEof])).
+Proof.
+  intros HH Hok Hm Hsmall data.
+  destruct (crash_read_noindex_lb req H' rs m fuel HH Hok Hm Hsmall) as [(e & s' & _ & E)|(h & s1 & j & tail & ended & st' & s' & _ & E & Ht & _)].
+  - left. exists e, s'. exact E.
+  - right. exists j, tail, ended, st', s'. split; [exact E|exact Ht].
 Qed.
 
 (** Fewer than 100 bytes: opening fails. *)
